@@ -72,8 +72,10 @@ AOpt == [simple |-> {Eff, [k |-> "setcv"], [k |-> "sets"], [k |-> "setp"], Y(Var
 EffX(v) == [k |-> "effx", id |-> 0, v |-> v]
 ABy == [AOpt EXCEPT !.simple = {Eff, [k |-> "setcv"], [k |-> "sets"], [k |-> "setp"], EffX([k |-> "gets"]), EffX([k |-> "pv", n |-> "a"])},
                     !.posts = {None, PAssign}]
-AOptX == [AOpt EXCEPT !.simple = {IncA, [k |-> "unsup", u |-> "clo-loopvar", id |-> 0], Y([k |-> "pk", n |-> "a"]), Y([k |-> "idg", n |-> "a"]), Y([k |-> "ln"]), Y([k |-> "cnv", n |-> "a"]), Y([k |-> "gets"])}]
-AByX == [ABy EXCEPT !.simple = {IncA, EffX([k |-> "pk", n |-> "a"]), EffX([k |-> "idg", n |-> "a"]), EffX([k |-> "ln"]), EffX([k |-> "cnv", n |-> "a"]), EffX([k |-> "gets"])}]
+AOptX == [AOpt EXCEPT !.simple = {IncA, [k |-> "unsup", u |-> "clo-loopvar", id |-> 0], Y([k |-> "pk", n |-> "a"]),
+                                  Y([k |-> "idi", n |-> "a"]), Y([k |-> "unn", n |-> "a"]), Y([k |-> "perr", n |-> "a"]), Y([k |-> "vari", n |-> "a"]), Y([k |-> "idg", n |-> "a"]), Y([k |-> "ln"]), Y([k |-> "cnv", n |-> "a"]), Y([k |-> "gets"])}]
+AByX == [ABy EXCEPT !.simple = {IncA, EffX([k |-> "pk", n |-> "a"]),
+                                EffX([k |-> "idi", n |-> "a"]), EffX([k |-> "unn", n |-> "a"]), EffX([k |-> "perr", n |-> "a"]), EffX([k |-> "vari", n |-> "a"]), EffX([k |-> "idg", n |-> "a"]), EffX([k |-> "ln"]), EffX([k |-> "cnv", n |-> "a"]), EffX([k |-> "gets"])}]
 \* constructs outside the supported subset (C12): a small control alphabet plus exactly one such construct
 UKinds == {"lbreak", "lcont", "goto", "select", "selbrk", "defer", "fallyield", "ifinit", "rparr", "rfunc", "rtparam",
            "clo-lbreak", "clo-goto", "clo-select", "clo-defer", "clo-rfunc", "clo-rparr", "clo-fall"}
